@@ -834,7 +834,9 @@ def gen_filter(rng, kind, msgs, names, anchors, computed=None, comp_rate=0.15):
                 box[e] = rng.choice(float_neighbours(p[e % 2]))
             return ('G',) + tuple(num(v) for v in box)
         if r < 0.7:
-            return ('G', -90, -180, 90, 180)
+            # the whole globe; and boxes reaching beyond it (the 'not available' position 91 / 181 lies inside those)
+            return rng.choice([('G', -90, -180, 90, 180), ('G', -90, -180, 90, 180), ('G', 0, -180, 91, 181),
+                               ('G', -91, -181, 91, 181), ('G', 90, 180, 200, 400)])
         if r < 0.8:
             return ('G', num(10.0), num(10.0), num(-10.0), num(-10.0))      # empty box
         a = rng.choice(anchors)
@@ -1101,6 +1103,34 @@ def check_case(ctx, groups, fs, perms, model=None, want_sample=False, quiet=Fals
                           f'{chain_text(pf)}: filter objects first built with other parameters and then given these through their '
                           f'public attributes yield {view2}, freshly built ones {base}',
                           dict(replay, filters=[list(f) for f in pf], reconfigured=True))
+    # (e) oracle: a chain keeps doing what it did after ANOTHER chain was built that ends with one of its filter objects
+    # (FilterChain links the objects it is given; the last one's link is left alone, so the earlier chain stays intact)
+    if judged and base and 'out' in base and len(fs) >= 2 and not isinstance(lines[0] if lines else None, Synth) \
+            and (getattr(ctx, 'force_shared', False) or ctx.rng.random() < 0.15):
+        from pyais.filter import FilterChain
+        pf = [fs[i] for i in perms[0]]
+        rep.count('chain-sharing-a-filter')
+        try:
+            objs = [build_filter(f) for f in pf]
+            chain_a = FilterChain(objs)
+            FilterChain([build_filter(('T', [1, 2, 3])), objs[0]])      # a later chain that ends with chain A's first filter
+            out, term = [], 'end'
+            try:
+                for m in chain_a.filter(make_stream(lines)):
+                    out.append(m)
+            except RecursionError:
+                raise
+            except Exception as e:      # noqa: BLE001
+                term = type(e).__name__
+            view3 = {'out': indices_of([content_key(m) for m in out], in_keys), 'end': term}
+        except RecursionError:
+            raise
+        except Exception as e:      # noqa: BLE001
+            view3 = {'raise': type(e).__name__}
+        if view3 != base:
+            rep.violation({'entry': 'FilterChain.filter', 'component': 'chain-sharing-a-filter', 'kind': 'changed-by-another-chain'},
+                          f'{chain_text(pf)}: after another chain was built that ends with this chain\'s first filter object the '
+                          f'chain yields {view3}, before {base}', dict(replay, filters=[list(f) for f in pf], shared=True))
     # distribution
     first = results.get(perms[0])
     if first and 'out' in first and first['out'] is not None:
@@ -1366,6 +1396,7 @@ def replay(ctx, data):
     c.rep, c.rng, c.quick = rep, ctx.rng, True
     c.budget = lambda q, t: q
     c.force_reconfigured = bool(data.get('reconfigured'))
+    c.force_shared = bool(data.get('shared'))
     if 'haversine' in data:
         v = [unnum(x) for x in data['haversine']]
         check_haversine(rep, (v[0], v[1]), (v[2], v[3]), 'replay')
